@@ -62,7 +62,7 @@ static bool init_valid(const Model & m)
   if (m.cat == 2) return m.iso == "K40";
   // DBD
   if (!(m.mode >= 1 && m.mode <= 24)) return false;
-  if (m.level == -1) return false;
+  if (m.level < 0) return false;
   if (m.has_min && m.has_max && !(m.emin < m.emax)) return false; // a half-open window (one limit NaN) is a legal request
   if ((m.has_min || m.has_max) && !window_capable(m.mode)) return false;
   if (m.mode >= 21) return m.iso == "Mo100" && m.level == 0 && m.ga == 2; // gA: data readable and complete, ground state
@@ -115,6 +115,7 @@ static std::vector<Op> alphabet(bool with_expensive, int which)
   setter("set_decay_dbd_level(0)", [](decay0_generator & G) { G.set_decay_dbd_level(0); }, [](Model & m) { m.level = 0; });
   setter("set_decay_dbd_level(1)", [](decay0_generator & G) { G.set_decay_dbd_level(1); }, [](Model & m) { m.level = 1; });
   setter("set_decay_dbd_level(-1)", [](decay0_generator & G) { G.set_decay_dbd_level(-1); }, [](Model & m) { m.level = -1; });
+  setter("set_decay_dbd_level(-2)", [](decay0_generator & G) { G.set_decay_dbd_level(-2); }, [](Model & m) { m.level = -2; }); // invalid, and not the 'unset' sentinel
   setter("set_decay_dbd_mode(1)", [](decay0_generator & G) { G.set_decay_dbd_mode(bxdecay0::DBDMODE_1); }, [](Model & m) { m.mode = 1; });
   setter("set_decay_dbd_mode(3)", [](decay0_generator & G) { G.set_decay_dbd_mode(bxdecay0::DBDMODE_3); }, [](Model & m) { m.mode = 3; });
   setter("set_decay_dbd_mode(21)", [](decay0_generator & G) { G.set_decay_dbd_mode(bxdecay0::DBDMODE_21); }, [](Model & m) { m.mode = 21; });
@@ -185,7 +186,7 @@ static std::vector<Op> alphabet(bool with_expensive, int which)
   if (which == 1) {
     // gA-focused alphabet: the data directory named by the environment is part of the history (none / a table cut after a few rows /
     // a complete one); a failed initialisation on the cut table must leave nothing behind in the generator
-    static const char * keep[] = {"set_decay_category(DBD)", "set_decay_isotope(Mo100)", "set_decay_dbd_level(0)", "set_decay_dbd_level(1)", "set_decay_dbd_mode(1)",
+    static const char * keep[] = {"set_decay_category(DBD)", "set_decay_isotope(Mo100)", "set_decay_dbd_level(0)", "set_decay_dbd_level(1)", "set_decay_dbd_level(-2)", "set_decay_dbd_mode(1)",
                                   "set_decay_dbd_mode(21)", "initialize", "shoot", "reset"};
     std::vector<Op> sel;
     for (auto & o : ops)
